@@ -482,9 +482,18 @@ impl FetchState {
             .collect::<BTreeSet<_>>();
         let mut failed_delegates = BTreeSet::new();
 
+        // N.b. remotes that advertised special refs, but have no
+        // `rad/sigrefs` that could be loaded, have pending tips as
+        // well. They must be checked (and pruned), too.
+        let fetched = signed_refs
+            .keys()
+            .chain(self.tips.keys())
+            .copied()
+            .collect::<BTreeSet<_>>();
+
         // TODO(finto): this might read better if it got its own
         // private function.
-        for remote in signed_refs.keys() {
+        for remote in &fetched {
             if handle.is_blocked(remote) {
                 log::trace!(target: "fetch", "Skipping blocked remote {remote}");
                 continue;
